@@ -28,6 +28,7 @@
 -/
 import MdModel.ProcessCore
 import MdModel.Gen.ProcessConsts
+import MdModel.Gen.OpAnalysisTables
 namespace MdModel.OpAnalysis
 open MdModel MdModel.Process
 
@@ -537,6 +538,24 @@ def opcOfName (s : String) : Opc :=
   | "VMPTRST" => .VMPTRST | "VMREAD" => .VMREAD | "VMRESUME" => .VMRESUME | "VMWRITE" => .VMWRITE
   | "VMXOFF" => .VMXOFF | "VMXON" => .VMXON | "WBINVD" => .WBINVD | "WRMSR" => .WRMSR | "XSETBV" => .XSETBV
   | _ => .other
+
+/-- the yaxpeax name of an opcode the model distinguishes (`Debug` of `Opcode`) -/
+def Opc.name : Opc → String
+  | .ADD => "ADD" | .CALL => "CALL" | .CMP => "CMP" | .DEC => "DEC" | .INC => "INC" | .JMP => "JMP"
+  | .JMPF => "JMPF" | .JO => "JO" | .JNO => "JNO" | .JB => "JB" | .JNB => "JNB" | .JZ => "JZ"
+  | .JNZ => "JNZ" | .JA => "JA" | .JNA => "JNA" | .JS => "JS" | .JNS => "JNS" | .JP => "JP"
+  | .JNP => "JNP" | .JL => "JL" | .JGE => "JGE" | .JG => "JG" | .JLE => "JLE" | .LEA => "LEA"
+  | .MOV => "MOV" | .MOVAPS => "MOVAPS" | .MOVUPS => "MOVUPS" | .POP => "POP" | .PUSH => "PUSH" | .RETF => "RETF"
+  | .RETURN => "RETURN" | .SUB => "SUB" | .UCOMISS => "UCOMISS" | .CALLF => "CALLF" | .JMPE => "JMPE" | .IRET => "IRET"
+  | .IRETD => "IRETD" | .IRETQ => "IRETQ" | .DIV => "DIV" | .IDIV => "IDIV" | .CLI => "CLI" | .CLTS => "CLTS"
+  | .HLT => "HLT" | .IN => "IN" | .INS => "INS" | .INT => "INT" | .INTO => "INTO" | .INVD => "INVD"
+  | .INVEPT => "INVEPT" | .INVLPG => "INVLPG" | .INVVPID => "INVVPID" | .LGDT => "LGDT" | .LIDT => "LIDT" | .LLDT => "LLDT"
+  | .LMSW => "LMSW" | .LTR => "LTR" | .MONITOR => "MONITOR" | .MWAIT => "MWAIT" | .OUT => "OUT" | .OUTS => "OUTS"
+  | .RDMSR => "RDMSR" | .RDPMC => "RDPMC" | .RDTSC => "RDTSC" | .RDTSCP => "RDTSCP" | .STI => "STI" | .SWAPGS => "SWAPGS"
+  | .SYSEXIT => "SYSEXIT" | .SYSRET => "SYSRET" | .VMCALL => "VMCALL" | .VMCLEAR => "VMCLEAR" | .VMLAUNCH => "VMLAUNCH" | .VMPTRLD => "VMPTRLD"
+  | .VMPTRST => "VMPTRST" | .VMREAD => "VMREAD" | .VMRESUME => "VMRESUME" | .VMWRITE => "VMWRITE" | .VMXOFF => "VMXOFF" | .VMXON => "VMXON"
+  | .WBINVD => "WBINVD" | .WRMSR => "WRMSR" | .XSETBV => "XSETBV"
+  | .other => "(other)"
 
 def parseInt (s : String) : Option Int :=
   if s.startsWith "-" then (optNat (s.drop 1).toString).map fun n => -(n : Int) else (optNat s).map fun n => (n : Int)
